@@ -989,3 +989,141 @@ func E6(p *load.Program, r *report.Report) int {
 	}
 	return n
 }
+
+// E5b — on the failure edge of a callee that returns (count, error), the count the caller returns must not
+// include that callee's count: after a failed write the callee's count is not what reached the writer.
+func E5b(p *load.Program, r *report.Report, accurate []string) {
+	// callees whose own count is proven (rule E5) to be a sum of counts of successful writes: their count
+	// is accurate even when they fail, and may be passed on
+	exempt := map[*ssa.Function]bool{}
+	for _, k := range accurate {
+		if f := p.Func(k); f != nil {
+			exempt[f] = true
+		}
+	}
+	n := 0
+	for _, f := range p.SrcFuncs() {
+		sig := f.Signature
+		if sig.Results().Len() < 2 || !ssau.IsErrorType(sig.Results().At(sig.Results().Len()-1).Type()) {
+			continue
+		}
+		if b, ok := sig.Results().At(0).Type().Underlying().(*types.Basic); !ok || b.Kind() != types.Int {
+			continue
+		}
+		ord := map[string]int{}
+		for _, ci := range ssau.Calls(f) {
+			c, ok := ci.(*ssa.Call)
+			if !ok {
+				continue
+			}
+			cs := c.Call.Signature()
+			if cs.Results().Len() != 2 || !ssau.IsErrorType(cs.Results().At(1).Type()) {
+				continue
+			}
+			if b, ok := cs.Results().At(0).Type().Underlying().(*types.Basic); !ok || b.Kind() != types.Int {
+				continue
+			}
+			cnt := ssau.ResultValue(c, 0)
+			errs := ssau.ResultValue(c, 1)
+			if len(cnt) == 0 || len(errs) == 0 {
+				continue
+			}
+			if cal := c.Call.StaticCallee(); cal != nil && exempt[cal] {
+				continue
+			}
+			short := shortCallee(ssau.CalleeName(&c.Call))
+			ord[short]++
+			key := fmt.Sprintf("%s/%s#%d", load.FuncName(f), short, ord[short])
+			n++
+			d, _ := derivedSet(f, errs[0])
+			bad := ""
+			for v := range d {
+				refs := v.Referrers()
+				if refs == nil {
+					continue
+				}
+				for _, ref := range *refs {
+					bo, ok := ref.(*ssa.BinOp)
+					if !ok {
+						continue
+					}
+					nc, ok := ssau.AsNilCompare(bo)
+					if !ok || !d[nc.X] {
+						continue
+					}
+					for _, rr := range *bo.Referrers() {
+						iff, ok := rr.(*ssa.If)
+						if !ok {
+							continue
+						}
+						nonNil := iff.Block().Succs[1]
+						if nc.Ne {
+							nonNil = iff.Block().Succs[0]
+						}
+						if len(nonNil.Preds) != 1 {
+							continue // shared block: cannot attribute the return to the failure edge
+						}
+						for _, ret := range reachableReturns(nonNil, iff.Block()) {
+							if !nonNil.Dominates(ret.Block()) {
+								continue
+							}
+							if includesCount(ret.Results[0], cnt[0], nonNil) {
+								bad = fmt.Sprintf("the return at %s on the failure edge of %s still adds that call's byte count", p.Pos(ret.Pos()), short)
+							}
+						}
+					}
+				}
+			}
+			if bad != "" {
+				r.Bad("E5b", key, p.Pos(c.Pos()), bad+": the reported count can exceed what the writer accepted")
+			} else {
+				r.OK("E5b", key, p.Pos(c.Pos()), "the callee's count is not part of any count returned on its failure edge")
+			}
+		}
+	}
+	r.Count("count_error_call_sites", n)
+}
+
+// includesCount: the summands of v (through +, phi edges coming from blocks dominated by `from`, spill
+// slots) include the value cnt.
+func includesCount(v, cnt ssa.Value, from *ssa.BasicBlock) bool {
+	seen := map[ssa.Value]bool{}
+	var rec func(v ssa.Value) bool
+	rec = func(v ssa.Value) bool {
+		if v == cnt {
+			return true
+		}
+		if seen[v] {
+			return false
+		}
+		seen[v] = true
+		switch x := v.(type) {
+		case *ssa.BinOp:
+			if x.Op == token.ADD {
+				return rec(x.X) || rec(x.Y)
+			}
+		case *ssa.Phi:
+			for i, e := range x.Edges {
+				pred := x.Block().Preds[i]
+				if x.Block() == from || from.Dominates(pred) || pred == from {
+					if rec(e) {
+						return true
+					}
+				}
+			}
+		case *ssa.UnOp:
+			if x.Op == token.MUL {
+				if a, ok := x.X.(*ssa.Alloc); ok && ssau.SpillSlot(a) {
+					vals, _ := ssau.ReachingStores(a, x)
+					for _, s := range vals {
+						if rec(s) {
+							return true
+						}
+					}
+				}
+			}
+		}
+		return false
+	}
+	return rec(v)
+}
